@@ -1,4 +1,415 @@
 package main
 
-func cmdCheck(args []string) int  { return 2 }
-func cmdReplay(args []string) int { return 2 }
+// `sver check <property> [--tier quick|thorough]`: runs the property's jobs
+// in parallel, replays counterexamples and witnesses natively, writes the
+// evidence file and prints VIOLATION / KNOWN-FINDING lines.
+
+import (
+	"crypto/sha1"
+	"encoding/json"
+	"flag"
+	"fmt"
+	"os"
+	"path/filepath"
+	"runtime"
+	"sort"
+	"strconv"
+	"strings"
+	"sync"
+	"time"
+)
+
+type KnownFinding struct {
+	ID       string `json:"id"`
+	Property string `json:"property"`
+	Status   string `json:"status"` // known | fixed
+	Commit   string `json:"commit,omitempty"`
+	What     string `json:"what"`
+}
+
+type KnownFile struct {
+	Findings []KnownFinding `json:"findings"`
+}
+
+func loadKnown() KnownFile {
+	var kf KnownFile
+	b, err := os.ReadFile(filepath.Join(verifDir(), "known_findings.json"))
+	if err == nil {
+		json.Unmarshal(b, &kf)
+	}
+	return kf
+}
+
+type CheckDef struct {
+	Property string
+	Quick    []JobSpec
+	Thorough []JobSpec
+	Encoded  []string // anchor functions expected to be executed
+	Assume   []string
+	Bounds   string
+	Outside  string
+}
+
+func cmdCheck(args []string) int {
+	fs := flag.NewFlagSet("check", flag.ExitOnError)
+	tier := fs.String("tier", "", "quick|thorough")
+	workers := fs.Int("j", 0, "parallel jobs")
+	only := fs.String("only", "", "only jobs whose harness contains this substring")
+	if len(args) < 1 {
+		fmt.Fprintln(os.Stderr, "usage: sver check <property> [--tier quick|thorough]")
+		return 2
+	}
+	prop := args[0]
+	fs.Parse(args[1:])
+	if *tier == "" {
+		*tier = os.Getenv("VERIF_TIER")
+	}
+	if *tier == "" {
+		*tier = "quick"
+	}
+	seed := 0
+	if s := os.Getenv("VERIF_SEED"); s != "" {
+		seed, _ = strconv.Atoi(s)
+	}
+	def, ok := checkDefs()[prop]
+	if !ok {
+		fmt.Fprintf(os.Stderr, "no check for property %s\n", prop)
+		return 2
+	}
+	jobs := def.Quick
+	if *tier == "thorough" {
+		jobs = def.Thorough
+	}
+	if *only != "" {
+		var f []JobSpec
+		for _, j := range jobs {
+			if strings.Contains(j.String(), *only) {
+				f = append(f, j)
+			}
+		}
+		jobs = f
+	}
+	// the seed only permutes the job order; nothing is sampled
+	if seed != 0 && len(jobs) > 1 {
+		r := uint64(seed)*6364136223846793005 + 1442695040888963407
+		for i := len(jobs) - 1; i > 0; i-- {
+			r = r*6364136223846793005 + 1442695040888963407
+			k := int((r >> 33) % uint64(i+1))
+			jobs[i], jobs[k] = jobs[k], jobs[i]
+		}
+	}
+	t0 := time.Now()
+	p, err := LoadProgram(repoDir(), filepath.Join(verifDir(), "harness"), "verif")
+	if err != nil {
+		fmt.Fprintln(os.Stderr, "LOAD-ERROR:", err)
+		return 2
+	}
+	known := loadKnown()
+	kfAccept := map[string]bool{}
+	kfWhat := map[string]string{}
+	for _, k := range known.Findings {
+		if k.Status == "known" {
+			kfAccept[k.ID] = true
+		}
+		kfWhat[k.ID] = k.What
+	}
+	nw := *workers
+	if nw <= 0 {
+		nw = runtime.NumCPU()
+	}
+	if nw > len(jobs) {
+		nw = len(jobs)
+	}
+	// longest jobs first (heuristic: larger args)
+	results := make([]*JobResult, len(jobs))
+	var wg sync.WaitGroup
+	ch := make(chan int)
+	for w := 0; w < nw; w++ {
+		wg.Add(1)
+		go func() {
+			defer wg.Done()
+			for i := range ch {
+				results[i] = RunJob(p, jobs[i], kfAccept)
+				r := results[i]
+				fmt.Fprintf(os.Stderr, "job %-40s %-12s exec=%.1fs states=%d obligations=%d viol=%d known=%d %s\n", jobs[i].String(), r.Status, r.ExecS, r.Stats.States, r.Obligations, len(r.Violations), len(r.Known), r.Error)
+			}
+		}()
+	}
+	for i := range jobs {
+		ch <- i
+	}
+	close(ch)
+	wg.Wait()
+
+	// native replay of violations, known hits and witnesses
+	type ref struct {
+		job  int
+		kind string // viol | known | wit
+		idx  int
+	}
+	var ins []ReplayIn
+	var refs []ref
+	for ji, r := range results {
+		for vi, v := range r.Violations {
+			ins = append(ins, ReplayIn{Harness: r.Spec.Harness, Args: r.Spec.Args, Vector: v.Vector})
+			refs = append(refs, ref{ji, "viol", vi})
+		}
+		for vi, v := range r.Known {
+			ins = append(ins, ReplayIn{Harness: r.Spec.Harness, Args: r.Spec.Args, Vector: v.Vector})
+			refs = append(refs, ref{ji, "known", vi})
+		}
+		for wi, w := range r.Witnesses {
+			ins = append(ins, ReplayIn{Harness: r.Spec.Harness, Args: r.Spec.Args, Vector: w.Vector})
+			refs = append(refs, ref{ji, "wit", wi})
+		}
+	}
+	outs, rerr := NativeReplay(p, ins)
+	exit := 0
+	var lines []string
+	mismatch := 0
+	validated := 0
+	confirmed := 0
+	knownHit := map[string]bool{}
+	if rerr != nil {
+		fmt.Fprintln(os.Stderr, "REPLAY-ERROR:", rerr)
+		exit = 2
+	}
+	os.MkdirAll(filepath.Join(verifDir(), "replays"), 0o755)
+	for i, rf := range refs {
+		if i >= len(outs) {
+			break
+		}
+		o := outs[i]
+		r := results[rf.job]
+		switch rf.kind {
+		case "wit":
+			w := r.Witnesses[rf.idx]
+			if o.Outcome == "ok" && logsEqual(w.Pred, o.Log) {
+				validated++
+			} else if o.Outcome == "assert" || o.Outcome == "panic" || o.Outcome == "timeout" {
+				// a witness of reachability may itself be a violating input; handled through the violation list
+				if logsEqual(w.Pred, o.Log) {
+					validated++
+				} else if o.Outcome != "panic" && o.Outcome != "timeout" {
+					mismatch++
+					fmt.Fprintf(os.Stderr, "ENCODER-MISMATCH witness %s %s: predicted %v native %v (%s)\n", r.Spec.String(), w.What, w.Pred, o.Log, o.Outcome)
+				}
+			} else {
+				mismatch++
+				fmt.Fprintf(os.Stderr, "ENCODER-MISMATCH witness %s %s: predicted %v native %v (%s)\n", r.Spec.String(), w.What, w.Pred, o.Log, o.Outcome)
+			}
+		case "viol", "known":
+			var v Violation
+			if rf.kind == "viol" {
+				v = r.Violations[rf.idx]
+			} else {
+				v = r.Known[rf.idx]
+			}
+			repro := false
+			switch v.Kind {
+			case "assert":
+				want := v.ID
+				if rf.kind == "known" {
+					want = v.ID + "@" + v.KF
+				}
+				for _, f := range o.Failed {
+					if f == want {
+						repro = true
+					}
+				}
+			case "panic":
+				repro = o.Outcome == "panic"
+			case "unwind":
+				repro = o.Outcome == "timeout"
+			}
+			rec := map[string]interface{}{"property": prop, "harness": r.Spec.Harness, "args": r.Spec.Args, "vector": v.Vector,
+				"assertion": v.ID, "kind": v.Kind, "where": v.Where, "input": v.Input, "native_outcome": o.Outcome, "native_failed": o.Failed, "native_panic": o.Panic, "known_finding": v.KF}
+			b, _ := json.MarshalIndent(rec, "", " ")
+			h := sha1.Sum(b)
+			path := filepath.Join(verifDir(), "replays", fmt.Sprintf("%s-%x.json", prop, h[:6]))
+			if !repro {
+				mismatch++
+				fmt.Fprintf(os.Stderr, "ENCODER-MISMATCH: model for %s %s (%s) does not reproduce natively: outcome=%s failed=%v panic=%q input=%s\n", r.Spec.String(), v.ID, v.Kind, o.Outcome, o.Failed, o.Panic, v.Input)
+				continue
+			}
+			if rf.kind == "known" {
+				if !knownHit[v.KF] {
+					knownHit[v.KF] = true
+					lines = append(lines, fmt.Sprintf("KNOWN-FINDING: property=%s %s %s (e.g. %s input=%s)", prop, v.KF, kfWhat[v.KF], r.Spec.String(), v.Input))
+				}
+				continue
+			}
+			os.WriteFile(path, b, 0o644)
+			confirmed++
+			lines = append(lines, fmt.Sprintf("VIOLATION property=%s replay=%s", prop, path))
+			fmt.Fprintf(os.Stderr, "  violation %s assertion=%s kind=%s at %s input=%s native=%s %v %s\n", r.Spec.String(), v.ID, v.Kind, v.Where, v.Input, o.Outcome, o.Failed, firstLine(o.Panic))
+			exit = 1
+		}
+	}
+	inconclusive := 0
+	for _, r := range results {
+		if r.Status == "error" || r.Status == "inconclusive" {
+			inconclusive++
+			fmt.Fprintf(os.Stderr, "INCONCLUSIVE job %s: %s %s %v\n", r.Spec.String(), r.Status, r.Error, r.SolverErrors)
+		}
+		for k, v := range r.Reach {
+			if v != "sat" {
+				inconclusive++
+				fmt.Fprintf(os.Stderr, "VACUOUS job %s: reach point %s is %s\n", r.Spec.String(), k, v)
+			}
+		}
+	}
+	if mismatch > 0 && exit != 1 {
+		exit = 3
+	}
+	if inconclusive > 0 && exit == 0 {
+		exit = 2
+	}
+	for _, l := range lines {
+		fmt.Println(l)
+	}
+	writeEvidence(prop, *tier, seed, def, results, validated, confirmed, mismatch, inconclusive, knownHit, time.Since(t0).Seconds())
+	fmt.Fprintf(os.Stderr, "check %s tier=%s: jobs=%d violations=%d known=%d validated_traces=%d mismatches=%d inconclusive=%d wall=%.1fs exit=%d\n",
+		prop, *tier, len(jobs), confirmed, len(knownHit), validated, mismatch, inconclusive, time.Since(t0).Seconds(), exit)
+	return exit
+}
+
+func firstLine(s string) string {
+	if i := strings.Index(s, "\n"); i >= 0 {
+		return s[:i]
+	}
+	return s
+}
+
+func writeEvidence(prop, tier string, seed int, def CheckDef, results []*JobResult, validated, confirmed, mismatch, inconclusive int, knownHit map[string]bool, wall float64) {
+	var states, transitions, obligations, discharged, incon int64
+	var solverMs, solverMax float64
+	var solverQ int
+	funcs := map[string]int{}
+	var samples []interface{}
+	var jobsum []interface{}
+	gstores := map[string]bool{}
+	for _, r := range results {
+		states += r.Stats.States
+		transitions += r.Stats.Edges
+		obligations += int64(r.Obligations)
+		discharged += int64(r.Discharged)
+		incon += int64(r.Inconclusive)
+		solverMs += r.SolverMs
+		solverQ += r.SolverQ
+		if r.SolverMaxMs > solverMax {
+			solverMax = r.SolverMaxMs
+		}
+		for f, n := range r.Funcs {
+			funcs[f] += n
+		}
+		for _, g := range r.GlobalStores {
+			gstores[g] = true
+		}
+		as := map[string]interface{}{}
+		for k, v := range r.Asserts {
+			as[k] = map[string]int{"states": v.States, "symbolic_condition": v.Symbolic}
+		}
+		jobsum = append(jobsum, map[string]interface{}{"job": r.Spec.String(), "status": r.Status, "merged_states": r.Stats.States, "forks": r.Stats.Forks,
+			"merges": r.Stats.MergedItems, "paths_pruned": r.Stats.Pruned, "assertions": as, "obligations": r.Obligations, "solver_queries": r.SolverQ,
+			"solver_ms": int(r.SolverMs), "exec_s": r.ExecS, "symbolic_vars": r.NVars, "terms": r.Terms})
+		if len(samples) < 12 {
+			for _, w := range r.Witnesses {
+				if len(samples) >= 12 {
+					break
+				}
+				samples = append(samples, map[string]interface{}{"job": r.Spec.String(), "witness_of": w.What, "input": w.Input, "vector": w.Vector, "observed": w.Pred})
+			}
+		}
+	}
+	if len(samples) == 0 {
+		samples = append(samples, map[string]interface{}{"note": "no witness produced", "jobs": len(results)})
+	}
+	fnames := make([]string, 0, len(funcs))
+	for f := range funcs {
+		fnames = append(fnames, f)
+	}
+	sort.Strings(fnames)
+	var kh []string
+	for k := range knownHit {
+		kh = append(kh, k)
+	}
+	sort.Strings(kh)
+	var gs []string
+	for g := range gstores {
+		gs = append(gs, g)
+	}
+	sort.Strings(gs)
+	ev := map[string]interface{}{
+		"property_id": prop,
+		"tier":        tier,
+		"seed":        seed,
+		"level":       "model_checking",
+		"wall_s":      wall,
+		"violations":  confirmed,
+		"coverage": map[string]interface{}{
+			"states":                        max(states, 1),
+			"transitions":                   max(transitions, 1),
+			"traces_validated_against_impl": validated,
+			"samples":                       samples,
+			"obligations":                   obligations,
+			"discharged":                    discharged,
+			"inconclusive":                  incon + int64(inconclusive),
+			"functions_encoded":             fnames,
+			"bounds":                        def.Bounds,
+			"outside_claim":                 def.Outside,
+			"solver":                        map[string]interface{}{"name": "z3 5.1.0 (z3-new -in, push/pop)", "queries": solverQ, "total_ms": int(solverMs), "max_ms": int(solverMax)},
+			"jobs":                          jobsum,
+			"encoder_mismatches":            mismatch,
+			"known_findings_hit":            kh,
+			"package_level_stores_outside_init": gs,
+			"rule": "states = merged symbolic states scheduled by the SSA executor (each stands for every input satisfying its path condition); transitions = CFG edges taken; every assertion site and implicit run-time check is an obligation discharged by the SMT solver (unsat = holds for all inputs in the bound) or decided on the exact per-byte value sets of the path condition",
+		},
+		"assumptions": def.Assume,
+	}
+	b, _ := json.MarshalIndent(ev, "", " ")
+	os.MkdirAll(filepath.Join(verifDir(), "evidence"), 0o755)
+	os.WriteFile(filepath.Join(verifDir(), "evidence", prop+".json"), b, 0o644)
+}
+
+func cmdReplay(args []string) int {
+	if len(args) < 1 {
+		fmt.Fprintln(os.Stderr, "usage: sver replay <path>")
+		return 2
+	}
+	b, err := os.ReadFile(args[0])
+	if err != nil {
+		fmt.Fprintln(os.Stderr, err)
+		return 2
+	}
+	var rec struct {
+		Property  string `json:"property"`
+		Harness   string `json:"harness"`
+		Args      []int  `json:"args"`
+		Vector    Vector `json:"vector"`
+		Assertion string `json:"assertion"`
+		Kind      string `json:"kind"`
+	}
+	if err := json.Unmarshal(b, &rec); err != nil {
+		fmt.Fprintln(os.Stderr, err)
+		return 2
+	}
+	p, err := LoadProgram(repoDir(), filepath.Join(verifDir(), "harness"), "verif")
+	if err != nil {
+		fmt.Fprintln(os.Stderr, "LOAD-ERROR:", err)
+		return 2
+	}
+	outs, err := NativeReplay(p, []ReplayIn{{Harness: rec.Harness, Args: rec.Args, Vector: rec.Vector}})
+	if err != nil || len(outs) == 0 {
+		fmt.Fprintln(os.Stderr, "REPLAY-ERROR:", err)
+		return 2
+	}
+	o := outs[0]
+	ob, _ := json.MarshalIndent(o, "", " ")
+	fmt.Println(string(ob))
+	if o.Outcome == "assert" || o.Outcome == "panic" || o.Outcome == "timeout" {
+		fmt.Printf("VIOLATION property=%s replay=%s\n", rec.Property, args[0])
+		return 1
+	}
+	return 0
+}
